@@ -355,7 +355,7 @@ def gen_tree_case(rng):
 class C07(Property):
     id = "C07"
     title = "flatten() is compositional and names every leaf by its position"
-    proof_module = "Proofs.C07TreeHist"
+    proof_module = "Proofs.C07TreeNodupHist"
     level_text = ("Lean 4 theorems on the flatten model: `flatten_compositional` (multiset equality with the members' own outputs at every node), "
                   "`flatten_level_order`, `joined_opaque`, `keys_are_paths` (key = separator-join of names, list members by position), "
                   "`keys_unique_paths` (equal keys imply equal name paths under SepSafe), `keys_nodup_noArray` / `keys_nodup_firstOnly` + "
@@ -371,12 +371,23 @@ class C07(Property):
                   "keys-are-paths and uniqueness transfer (`tree_keys_are_paths`, `tree_flatten_compositional`); `flattenTree_stale_differs`: one stale slot name "
                   "refutes the unconditional statement. Tied to /repo twice: flat family (element states after random list-mutation histories, model recomputes "
                   "flatten) and tree-history family (the same history runs on the real library and on the Lean tree model; flatten() is compared after the "
-                  "construction and after every call, with both the shape walk and the literal pointer-walking rendering); the oracle recomputes keys from positions.")
+                  "construction and after every call, with both the shape walk and the literal pointer-walking rendering); the oracle recomputes keys from positions. "
+                  "The LITERAL rendering of Element.flatten / flattened_name (`flattenCode`: queue with a `seen` set of identities, every key by walking the STORED parent "
+                  "pointers through C08.pathOf) is now proved equal to the shape walk: `flattenCode_eq_flattenTree_of` / `flattenCode_eq_flattenTree` (well-parented, parentless root, "
+                  "unique identities = C08's TreeOK, Lists hold ListSlots, walk bound >= height of the tree; universe root :: pool as the runner uses it), "
+                  "`flattenCode_eq_flattenTree_history` and `c07_code_histories`: along every history from every construction route the code rendering = the positional "
+                  "specification (C08's `c08_tree_inv` + h1's `hrun_dps` composed); `dupId_drops_subtree`, `stalePtr_wrong_chain`, `notSlotted_wrong_name`, "
+                  "`flattenCode_unconditional_fails`: each hypothesis is needed (a duplicated identity makes the seen-set drop a subtree, a stale parent pointer names the wrong chain). "
+                  "Uniqueness on trees: `tree_keys_nodup_arrLe1` / `tree_keys_nodup_noArray` (deep-positional tree, mapping children with pairwise distinct names, Arrays/MultiValues "
+                  "with <= 1 member resp. none, SepSafe separator => keys pairwise distinct), `tree_keys_nodup_histories_partial`, `tree_nodup_noArray_hist_partial`, "
+                  "`code_keys_nodup_histories_partial` (after every step of every history; `distinctNames` / `arrLe1T` are decidable checks of the state reached), "
+                  "`distinctNames_not_invariant` + `tree_keys_nodup_full_fails`: the check cannot be dropped (two renamed instances assigned to a SparseDict flatten under one key).")
     level_note = ('Trusted: Lean kernel + 3 standard axioms; models Flatland/Flat.lean (flatten part), Flatland/Tree.lean + Flatland/C07Tree.lean; in the flat '
-                  'family element state and leaf texts are extracted from the real element; that only Array/MultiValue members share a name path is checked by '
-                  'the oracle, not proved; the theorems are about the shape walk `flattenTree` — that the literal rendering `flattenCode` (seen-set of identities, '
-                  'flattened_name through stored parent pointers) equals it on trees with unique identities and shape-consistent parent pointers (C08\'s invariant) is '
-                  'checked on every compared step, not proved.')
+                  'family element state and leaf texts are extracted from the real element; that only Array/MultiValue members share a name path is proved on '
+                  'trees under the decidable check `distinctNames` of the state reached (not an invariant: distinctNames_not_invariant) and checked by the oracle on every step; '
+                  '`flattenCode = flattenTree` (seen-set never fires, pointer walk = accumulated names) is PROVED under C08\'s invariant and along histories '
+                  '(c07_code_histories; inherited hypotheses: swf schema, HistOK = OpArgsWP + HistFresh/ArgsFresh, OpArgsDP) and still compared on every step; '
+                  'the runner\'s walk bound 64 is covered when the tree is at most 64 levels deep (height <= fuel).')
     technique = 'Lean 4 proof (queue BFS = level order, permutation with per-child outputs); differential correspondence; Python oracle'
     theorems = [
         "Flatland.Flat.Proofs.flatten_compositional",
@@ -423,6 +434,32 @@ class C07(Property):
         "Flatland.C07Tree.Proofs.constructed_dps",
         "Flatland.C07Tree.Proofs.c07_positional_histories",
         "Flatland.C07Tree.Proofs.flatten_positional_run",
+        # k5: the literal code rendering = the shape walk, along histories; uniqueness on trees
+        "Flatland.C07Tree.Proofs.anc_height",
+        "Flatland.C07Tree.Proofs.slotted_of_dps",
+        "Flatland.C07Tree.Proofs.parentsOf_cons_eq",
+        "Flatland.C07Tree.Proofs.codePair_eq",
+        "Flatland.C07Tree.Proofs.codeLoop_eq_bfs",
+        "Flatland.C07Tree.Proofs.flattenCode_eq_flattenTree_of",
+        "Flatland.C07Tree.Proofs.flattenCode_eq_flattenTree",
+        "Flatland.C07Tree.Proofs.flattenCode_eq_flattenTree_size",
+        "Flatland.C07Tree.Proofs.constructed_treeok",
+        "Flatland.C07Tree.Proofs.flattenCode_eq_flattenTree_history",
+        "Flatland.C07Tree.Proofs.c07_code_histories",
+        "Flatland.C07Tree.Proofs.c07_code_flat_histories",
+        "Flatland.C07Tree.Proofs.dupId_drops_subtree",
+        "Flatland.C07Tree.Proofs.stalePtr_wrong_chain",
+        "Flatland.C07Tree.Proofs.notSlotted_wrong_name",
+        "Flatland.C07Tree.Proofs.flattenCode_unconditional_fails",
+        "Flatland.C07Tree.Proofs.pathsOK_toFNode",
+        "Flatland.C07Tree.Proofs.tree_keys_nodup_arrLe1",
+        "Flatland.C07Tree.Proofs.tree_keys_nodup_noArray",
+        "Flatland.C07Tree.Proofs.tree_keys_nodup_histories_partial",
+        "Flatland.C07Tree.Proofs.tree_nodup_noArray_hist_partial",
+        "Flatland.C07Tree.Proofs.code_keys_nodup_histories_partial",
+        "Flatland.C07Tree.Proofs.sepSafe_single_char_tree",
+        "Flatland.C07Tree.Proofs.distinctNames_not_invariant",
+        "Flatland.C07Tree.Proofs.tree_keys_nodup_full_fails",
     ]
     trusted_base = [
         "scalar text (.u) and compound text are inputs of the flat model (env tables computed from the real classes in isolation; subjects of C04/C18)",
@@ -430,7 +467,9 @@ class C07(Property):
         "tree-history family: nothing is extracted — schema, construction route and calls go to the real library and to the Lean tree model alike (executor Flatland/TreeJson.lean, shared with C08/C09); histories the tree model does not cover (it answers 'unsupported') are oracle-only and tagged so",
     ]
     assumptions = ["the uniqueness THEOREMS need SepSafe names and separators (keys_nodup_needs_sepSafe: refuted without it, KF-C07-a); the oracle checks uniqueness for every separator; Array members are scalars (library assertion)",
-                   "history theorems: Element arguments handed to a call are themselves deep-positional subtrees (`OpArgsDPS`; true of everything the construction routes and earlier calls produce)"]
+                   "history theorems: Element arguments handed to a call are themselves deep-positional subtrees (`OpArgsDPS`; true of everything the construction routes and earlier calls produce)",
+                   "code-rendering history theorems (c07_code_histories, code_keys_nodup_histories_partial) inherit C08's hypotheses: the schema declares every mapping key once (`swf`), Element arguments are internally well-parented (`OpArgsWP`) and fresh or detached (`HistFresh`/`ArgsFresh`: identities not in the tree, below the counter, kok); the walk bound is at least the height of the tree",
+                   "uniqueness on trees: `distinctNames` (mapping children carry pairwise distinct, non-None names) and `arrLe1T`/`noArrayT` are decidable checks of the state reached, not derived from the history (distinctNames_not_invariant)"]
     rule = ("random schemas (Dict/SparseDict/List/Array/MultiValue/JoinedString/DateYYYYMMDD/scalars, depth<=4, hostile names and "
             "separators) x mostly-valid native values x 0-4 list mutations (insert/append/pop/del/slices/reverse/sort); non-trivial = "
             ">=3 pairs emitted and at least one container below the root; distinct = canonical case JSON. "
